@@ -233,7 +233,7 @@ func runC04(c *core.Ctx) {
 			if i%6 == 5 {
 				// a parser configured with another comment character: '#' is then an ordinary character that
 				// may begin a name, and comments begin with the configured one
-				cc := []byte{';', '/', '`', '%', '!'}[r.Intn(5)]
+				cc := []byte{';', '/', '`', '%', '!', 0xa7, 0xe9, 0xff}[r.Intn(8)]
 				ok := true
 				for _, rec := range b {
 					ok = ok && len(rec.Name) > 0 && rec.Name[0] != cc
@@ -245,8 +245,14 @@ func runC04(c *core.Ctx) {
 					for ri := range b {
 						b[ri].Notes = nil // how note lines read under another comment character is not documented
 						for ei := range b[ri].Ents {
-							if r.Intn(3) == 0 {
+							switch r.Intn(4) {
+							case 0:
 								b[ri].Ents[ei].Name = "#" + b[ri].Ents[ei].Name
+							case 1:
+								if cc >= 0x80 {
+									// the two-byte UTF-8 form of the code point is not the comment byte
+									b[ri].Ents[ei].Name = string(rune(cc)) + b[ri].Ents[ei].Name
+								}
 							}
 						}
 					}
